@@ -19,33 +19,45 @@
        loop's holding back of texts containing '<' and of the last token only delays output).
      - C15_reinsert: append_child / prepend_child (body_append.rs / body_prepend.rs) on a balanced target whose
        serialisation the tokenizer reads as its token stream insert the value before the end tag / after the start tag.
-   WHAT IS PARTIAL (theorems with a named HYPOTHESIS about the tokenizer):
-     - C15_byte_level_partial: body_run on the serialised document = serialize(reference_edit(doc)) for every tree
-       in the domain, under the hypothesis [tokenizes_as doc]: the tokenizer model reads the serialised tree as
-       the tree's token stream (up to how non-tag bytes are split into text/comment/doctype tokens).  With a
-       selector and append/prepend, also [tokenizes_strict [target]] and [balanced target] ([in_domain_bytes]).
-       These hypotheses are NOT proved for a class of documents (the tokenizer model is a fuelled state machine
-       of ~900 lines; its totality/characterisation is work in progress elsewhere).
-     - C15_list_partial: several filters compose in order: body_run with a list of HTML filters = the reference
-       edits applied in order, under the same hypotheses for each intermediate document ([list_ok]; the documents are
-       not empty), and the TWO-PIECE LAW of the HTML stage for the stages after the first ([two_piece_law]: fed with
-       two pieces the stage ends like on their concatenation when that run does not end in the error state; this is
-       the split law of C03 in the conditional form proved in RIO.HtmlSplit.hfb_split_law_noerr from the tokenizer's
-       totality facts; the unconditional law is false): the chain hands a stage's held bytes over as a second piece.
-       C15_compose (kept): the chain discipline for two total stages on one chunk.
+     - C15_tokenizer_token_by_token: the tokenizer model reads a serialised tree as the tree's token stream
+       ([tokenizes_as], up to how non-tag bytes are split into text/comment/doctype tokens) as soon as every tag,
+       comment and raw-text element of the tree passes an EXECUTABLE check made on its bytes IN ISOLATION ([doc_ok]:
+       run alone from the initial state the bytes give exactly the expected token(s), end without having looked
+       beyond them and leave no raw-text context) and the texts contain no '<'.  Proof: the tokenizer is prefix-stable
+       (HtmlTokProofs.next_stable) and shift-invariant (TokShift.next_shift), texts are scanned by next's main loop.
+     - C15_byte_level: body_run on the serialised document = serialize(reference_edit(doc)) for EVERY tree in the domain
+       that passes [doc_ok] (with a selector and append/prepend the target must also be balanced).  No hypothesis about
+       the tokenizer is left: [doc_ok] is a boolean function of the tree.
+     - C15_generated_documents_ok / C15_generated: EVERY tree, of any shape and size, built from the vocabulary of the
+       C15 generator (harness/src/c03.rs: FILLER_TAGS, the path html > body > main > article, the marked element, void
+       and self-closing names, ATTRS, COMMENTS, SCRIPTS, RAWTEXTS with their element names, the doctype, any text
+       without '<') passes [doc_ok] (the ~200 tokens of the vocabulary are checked one by one by the kernel, the trees
+       by induction); hence for every such tree in the domain of the property, every action, path, selector, selector
+       engine and value: body_run (ASCII lower-casing) on the serialised tree = serialize(reference_edit(tree)).
+       This is the universal statement of C15 for one filter, on the model.
+     - C15_list_full: several filters compose in order: body_run with a list of HTML filters = the reference edits
+       applied in order, when every filter finds the document left by the previous ones in its domain and passing
+       [doc_ok] ([list_ok_units]; the documents are not empty), for every lower-casing function that is ASCII
+       lower-casing on the ten raw-text element names ([lower_ok]).  The chain hands a stage's held bytes over as a
+       second piece; that the HTML stage fed with two pieces ends like on their concatenation (unless that run ends in
+       the error state) is RIO.HtmlSplit.hfb_split_law_noerr, the split law of C03 in its conditional form (the
+       unconditional law is false).  C15_compose (kept): two total stages on one chunk.
+   WHAT IS PARTIAL (theorems with a named HYPOTHESIS), kept because they are more general:
+     - C15_list: the same as C15_list_full for ANY lower-casing function, with the two-piece law of the HTML stage
+       ([two_piece_law]) as a hypothesis for the stages after the first.
+     - C15_byte_level_partial / C15_list_partial (kept, more general than C15_byte_level / C15_list): the same with the
+       hypothesis [tokenizes_as doc] (resp. [tokenizes_strict [target]]) instead of [doc_ok].
    WHAT IS TEST (kernel-evaluated by vm_compute, not universal):
-     - C15_tok_*: the hypotheses [tokenizes_as] / [tokenizes_strict] hold on concrete documents covering every
-       node kind of the generator (attribute quoting styles, void and self-closing elements, comments containing
-       tags, script/style and the other raw-text elements with '<' and end tags inside, entities, multi-byte text,
-       doctype, upper-case tags, adjacent texts, a document ending in text);
-     - C15_instance: the hypotheses of C15_byte_level_partial are satisfiable on a generator-shaped document
-       (depth 3, selector, append_child), i.e. the theorem is not vacuous;
+     - C15_tok_*: [tokenizes_as] / [tokenizes_strict] evaluated directly on concrete documents covering every node kind;
+     - C15_instance, C15_instance_generated: the hypotheses of C15_byte_level_partial resp. C15_generated are satisfiable
+       on a generator-shaped document (depth 3, selector, append_child), i.e. the theorems are not vacuous;
      - the earlier examples of the executable model on [doc1] (C15_append_child ... C15_two_filters).
-   The correspondence run (crate vs model vs generator's expectation on every generated case) remains what ties
-   the model to the crate and what decides the universal byte-level statement where the hypotheses are not proved. *)
+   The correspondence run (crate vs model vs generator's expectation on every generated case) remains what ties the
+   model to the crate. *)
 Require Import Coq.Strings.String Coq.Strings.Ascii.
 Require Import RIO.Base RIO.TokMonad RIO.HtmlTok RIO.BodyText RIO.HtmlFilter RIO.ChainProofs RIO.BodyProofs RIO.CodecChain RIO.C03Run.
-Require Import RIO.Dom RIO.HtmlTokens RIO.HtmlBridge RIO.HtmlInsert RIO.HtmlList.
+Require Import RIO.Dom RIO.HtmlTokens RIO.HtmlBridge RIO.HtmlInsert RIO.HtmlList RIO.HtmlCompose RIO.HtmlGenVocab.
+Require RIO.HtmlTokProofs RIO.HtmlListFull.
 Close Scope N_scope.
 Open Scope string_scope.
 
@@ -154,6 +166,49 @@ Theorem C15_list_partial : forall (lower : str -> str) (sel_eval : str -> str ->
   = ser_forest (ref_edit_list lower (map (to_ref sel_eval) fs) doc).
 Proof. exact RIO.HtmlList.C15_list_partial. Qed.
 
+(* the tokenizer reads a serialised tree token by token: THEOREM *)
+Theorem C15_tokenizer_token_by_token : forall (lower : str -> str) (doc : list node),
+  doc_ok lower doc = true -> tokenizes_as lower doc.
+Proof. exact tokenizes_as_units. Qed.
+
+(* bytes, one filter, hypotheses = the domain and the executable token-by-token check: THEOREM *)
+Theorem C15_byte_level : forall (lower : str -> str) (sel_eval : str -> str -> bool) (act : action) (path : list str)
+    (sel : option str) (value doc : list node),
+  in_domain_units lower act path sel doc ->
+  doc_ok lower doc = true ->
+  body_run lower sel_eval true [mk_filter act path sel value] [ser_forest doc]
+  = ser_forest (ref_edit lower act value (css sel_eval sel) path doc).
+Proof. exact RIO.HtmlCompose.C15_byte_level. Qed.
+
+(* every tree over the generator's vocabulary passes the check: THEOREM *)
+Theorem C15_generated_documents_ok : forall doc : list node, forallb gen_node doc = true -> doc_ok lower_ascii doc = true.
+Proof. exact gen_doc_ok. Qed.
+
+(* the universal statement of C15 for one filter, for every generated tree: THEOREM *)
+Theorem C15_generated : forall (sel_eval : str -> str -> bool) (act : action) (path : list str) (sel : option str)
+    (value doc : list node),
+  forallb gen_node doc = true ->
+  spine lower_ascii act path (fun _ => True) path doc ->
+  body_run lower_ascii sel_eval true [mk_filter act path sel value] [ser_forest doc]
+  = ser_forest (ref_edit lower_ascii act value (css sel_eval sel) path doc).
+Proof. exact RIO.HtmlGenVocab.C15_generated. Qed.
+
+(* several filters in order, hypotheses = the domains, the checks, and the two-piece law of the HTML stage: PARTIAL *)
+Theorem C15_list : forall (lower : str -> str) (sel_eval : str -> str -> bool) (fs : list hfilter) (doc : list node),
+  list_ok_units lower sel_eval fs doc ->
+  (forall f, In f (tl fs) -> two_piece_law lower sel_eval (hfb_new (mkvis (hf_act f) (hf_path f) (hf_sel f) (hf_val f)))) ->
+  body_run lower sel_eval true (map to_body fs) [ser_forest doc]
+  = ser_forest (ref_edit_list lower (map (to_ref sel_eval) fs) doc).
+Proof. exact RIO.HtmlCompose.C15_list. Qed.
+
+(* several filters in order, the two-piece law discharged by RIO.HtmlSplit: THEOREM *)
+Theorem C15_list_full : forall (lower : str -> str) (sel_eval : str -> str -> bool) (fs : list hfilter) (doc : list node),
+  RIO.HtmlTokProofs.lower_ok lower ->
+  list_ok_units lower sel_eval fs doc ->
+  body_run lower sel_eval true (map to_body fs) [ser_forest doc]
+  = ser_forest (ref_edit_list lower (map (to_ref sel_eval) fs) doc).
+Proof. exact RIO.HtmlListFull.C15_list_full. Qed.
+
 (* ================================================================== TESTS of the hypotheses (vm_compute) *)
 Open Scope string_scope.
 Definition E t a ch := Elem (b t) (b a) ch.
@@ -227,6 +282,32 @@ Proof.
   intros _ _. split; [vm_compute; reflexivity|exact C15_tok_target_strict].
 Qed.
 
+(* the hypotheses of C15_generated are satisfiable: a generated-vocabulary document, replace with sibling targets *)
+Definition gfill : list node :=
+  [T "hello"; T " "; Cm "</body>"; Rw "script" "document.write('</p><body>');"; Vd "br" " class=""a"""; Sc "x-a" " id='x y'";
+   E "span" " title=""a>b""" [T "x > y"; E "P" "" []]; Rw "title" "a </head> b"].
+Definition gdoc : list node :=
+  [T "<!DOCTYPE html>"; E "html" " hidden" (gfill ++ [E "body" "" (gfill ++ [E "main" " id='x y'" gfill; T " "; Sc "main" " data-k=v"; E "main" "" []] ++ gfill)%list] ++ gfill)%list; T "
+"].
+Example C15_instance_generated : forall sel_eval,
+  body_run lower_ascii sel_eval true [mk_filter AReplace [b "html"; b "body"; b "main"] (Some (b "em.mark")) [E "b" "" [T "V"]]] [ser_forest gdoc]
+  = ser_forest (ref_edit lower_ascii AReplace [E "b" "" [T "V"]] (css sel_eval (Some (b "em.mark"))) [b "html"; b "body"; b "main"] gdoc).
+Proof.
+  intros sel_eval. apply C15_generated; [vm_compute; reflexivity|].
+  cbn [spine].
+  exists [T "<!DOCTYPE html>"], (b "html"), (b " hidden"), (gfill ++ [E "body" "" (gfill ++ [E "main" " id='x y'" gfill; T " "; Sc "main" " data-k=v"; E "main" "" []] ++ gfill)%list] ++ gfill)%list, [T "
+"].
+  split; [reflexivity|]. split; [reflexivity|]. split; [reflexivity|]. split; [reflexivity|]. split; [reflexivity|].
+  exists gfill, (b "body"), (b ""), (gfill ++ [E "main" " id='x y'" gfill; T " "; Sc "main" " data-k=v"; E "main" "" []] ++ gfill)%list, gfill.
+  split; [reflexivity|]. split; [reflexivity|]. split; [reflexivity|]. split; [vm_compute; reflexivity|]. split; [vm_compute; reflexivity|].
+  split.
+  - repeat (apply Forall_cons || apply Forall_nil);
+      first [ left; vm_compute; reflexivity
+            | right; cbn [target]; first [ reflexivity | split; [reflexivity|split; [reflexivity|vm_compute; reflexivity]] ] ].
+  - apply Exists_exists. exists (Sc "main" " data-k=v"). split; [|reflexivity].
+    unfold gfill. cbn [app In]. tauto.
+Qed.
+
 Print Assumptions C15_compose.
 Print Assumptions C15_token_level.
 Print Assumptions C15_reference_is_generator_edit.
@@ -235,3 +316,10 @@ Print Assumptions C15_reinsert.
 Print Assumptions C15_byte_level_partial.
 Print Assumptions C15_list_partial.
 Print Assumptions C15_instance.
+Print Assumptions C15_tokenizer_token_by_token.
+Print Assumptions C15_byte_level.
+Print Assumptions C15_generated_documents_ok.
+Print Assumptions C15_generated.
+Print Assumptions C15_list.
+Print Assumptions C15_instance_generated.
+Print Assumptions C15_list_full.
